@@ -615,3 +615,97 @@ Example C05_example_errq :
       [x_run 7 2 1 11 4 [0;0;2;0;1;0]; x_run 7 2 1 11 4 [0;0;0;2;1;0]; x_run 7 2 3 13 4 [0;0;2;0;1;0]; x_run 7 2 0 10 4 [0;0;0;0;1;1]] =
   [([0; 0; 11], 11, [1; 2]); ([0; 0; 11], 11, [1; 2]); ([0; 0; 13], 13, [1; 2]); ([0; 0; 0; 0], 0, [1; 2; 3; 4])].
 Proof. vm_compute. reflexivity. Qed.
+
+(* ========================================================================================= *)
+(* Strengthening: lock waits on the FAILURE paths a caller runs itself -- giving up on a      *)
+(* stalled connection, and a connection that dies while it is being registered with its peer *)
+(* Definitions: Model/C05VLockFam.v (c05v_results, run_c05vlock = concat of it: the scenario  *)
+(* model of sub c05vlock of engine cutbegin, paths over Gen/GenWaitSites.v and               *)
+(* Gen/GenLockProgs.v), Proofs/C05VLockFamP.v (c05v_wf: the times of a scenario are not       *)
+(* negative; c05v_back_in_time r: r = [class; 1] with class 0 or 1; c05v_names).              *)
+(* ========================================================================================= *)
+From Verif Require Import Model.CallScen Model.CutBegin Model.C05VLockFam Proofs.C05VLockFamP.
+
+(* Over the tables regenerated from the source: EVERY call of EVERY scenario of the two families
+   has control back by its bound (its deadline; for the caller that cancels, the moment of the
+   cancellation), for all deadlines, cancellation moments, buffer sizes, and any number of
+   follow-up calls:
+   family 3 -- the connection is stalled in the send direction with its send buffer full; X is
+     blocked in flushFragment on a multi-frame argument, W (optional) waits for a withheld
+     response; one of them cancels (with or without SendCancelOnContextCanceled) or lets its
+     deadline expire; with the option set the cancelling caller's OWN goroutine runs
+     Connection.onCancel -> sendMessage fails -> connectionError -> close (withStateLock) ->
+     stopExchanges (both sets) -> checkExchanges (readState) -> removeExchange; the other call
+     is woken by the error latch; Z then calls the same host:port;
+   family 4 -- the goroutine establishing a connection is between the unlocked and the locked
+     state check of Peer.addConnection when the connection leaves the active state; it takes
+     the peer's lock, finds the connection inactive, returns; the first call fails on the dead
+     connection; every follow-up call takes the same peer's lock, connects and registers anew.
+   Each lock acquisition on these paths passes only if its site is in the generated lock-site
+   table and the WHOLE generated lock-program table passes the checker (Model/CutBegin.v lock_in);
+   each wait must have a deadline exit in the generated wait-site table. *)
+Theorem C05_failure_path_scenarios_back : forall c, c05v_wf c -> Forall c05v_back_in_time (c05v_results c).
+Proof. exact c05vlock_all_back. Qed.
+
+(* the tie is not vacuous: every function in which those paths take a lock (Peer.addConnection,
+   Connection.withStateLock, messageExchangeSet.stopExchanges, Peer.getActiveConn,
+   Connection.readState, messageExchangeSet.newExchange / removeExchange) has its acquisition in
+   the generated lock-site table on a plain mutex, and its lock program is in the generated table
+   and follows the lock discipline in every execution *)
+Theorem C05_failure_path_locks_tied : Forall (fun n =>
+  (exists l, In l (lockp_sites ++ lockp_sites_conn) /\ ls_fn l = n /\ plain_mutex lockp_mutexes (ls_mutex l)) /\
+  (exists f, In f lockp_progs /\ lf_name f = n /\ lock_disciplined (sem_of lockp_mutexes) f)) c05v_names.
+Proof. exact c05vlock_names_tied. Qed.
+
+(* and the prediction really depends on the tables: one lock acquisition that is not a site of
+   the table (or any acquisition when the table fails the checker: lock_in then has this shape)
+   anywhere on a path turns the prediction into "may be blocked for ever" *)
+Theorem C05_failure_path_unknown_lock_blocks : forall class dc bound pre post,
+  forallb c05v_step_ok pre = true ->
+  c05v_back class dc bound (pre ++ mkStep (mkWsite [] WLock []) (mkEv None None None) false :: post) = [class; 0].
+Proof. exact c05v_unknown_site_blocks. Qed.
+
+Print Assumptions C05_failure_path_scenarios_back.
+Print Assumptions C05_failure_path_locks_tied.
+Print Assumptions C05_failure_path_unknown_lock_blocks.
+
+(* non-vacuity: a family-3 scenario (SendCancelOnContextCanceled, buffer of 2, X cancels 30 ms in,
+   W present) and a family-4 scenario (through a forwarder, second registration, reset, two
+   follow-ups) are well-formed, and the model's output for them *)
+Example C05_example_failure_path_scenarios :
+  c05v_wf [3; 1; 2; 0; 0; 1; 600; 700; 400; 30] /\ c05v_wf [4; 0; 1; 2; 3; 500; 300; 400] /\
+  run_c05vlock [3; 1; 2; 0; 0; 1; 600; 700; 400; 30] = [1; 1; 1; 1; 0; 1] /\
+  run_c05vlock [4; 0; 1; 2; 3; 500; 300; 400] = [0; 1; 0; 1; 0; 1].
+Proof. exact c05vlock_examples. Qed.
+
+(* ========================================================================================= *)
+(* Strengthening: the blocking statements the caller's goroutine reaches THROUGH THE PACKAGE'S  *)
+(* OWN CALLBACKS.  Definitions: Spec/C05VWideSpec.v (wjoin, join_bounded, is_bounded_join),     *)
+(* c05v_wait_sites / c05v_wait_joins (end of Gen/GenLockProgs.v, regenerated from the source by  *)
+(* go2v/c05vwide.go), Proofs/C05VWideP.v.                                                       *)
+(* ========================================================================================= *)
+From Verif Require Import Spec.C05VWideSpec Proofs.C05VWideP.
+
+(* THE WIDE TABLE.  C05_wait_exits follows declared functions and methods only.  The caller's
+   goroutine also runs the function values the package itself stores into func-typed struct
+   fields -- messageExchangeSet.onCancel / onRemoved / onAdded, connectionEvents.OnActive /
+   OnCloseStateChange / OnExchangeUpdated -- directly or through a local variable holding the
+   field's value: a caller that gives up runs Connection.onCancel (-> connectionError -> close
+   -> Channel.connectionCloseStateChange ...) itself.  Every blocking statement of THAT closure
+   (same extraction per function) offers an exit bound to the caller's deadline, or is the
+   release of the new-connection semaphore, or is the join of a goroutine of the package
+   (`<-c.healthCheckDone`) that was told to stop by the statement before (a context.CancelFunc)
+   and whose own blocking statements can all be left through a context, a timer or a connection
+   deadline. *)
+Theorem C05_wait_exits_through_callbacks :
+  Forall (fun w => has_deadline_exit w \/ is_release w \/ is_bounded_join c05v_wait_joins w) c05v_wait_sites.
+Proof. exact wide_wait_sites_ok. Qed.
+
+(* the wide table contains every site of the narrow one, its closure is strictly larger, and no
+   acquisition of a mutex held across network I/O is in it *)
+Theorem C05_wide_table_includes_narrow : (forall w, In w wait_sites -> In w c05v_wait_sites) /\
+  c05v_narrow_root_count < c05v_wide_root_count /\ Forall (fun w => ws_kind w <> WLock) c05v_wait_sites.
+Proof. exact wide_includes_narrow. Qed.
+
+Print Assumptions C05_wait_exits_through_callbacks.
+Print Assumptions C05_wide_table_includes_narrow.
